@@ -64,7 +64,7 @@ static int NGETSUB;                    /* 64 or 4096 */
 #define NSLOTS (SLOT_DEV + N_DEV)
 static const uint32_t GBITS[12] = {VF_G_MTU, VF_G_MAC, VF_G_ICON, VF_G_FNAME, VF_G_HWID, VF_G_HOSTNAME, VF_G_IFTYPE, VF_G_IPV4, VF_G_IPV6, VF_G_SPEED, VF_G_WIFIMODE, VF_G_SSID};
 
-static void plan_clear(void) { memset(&W.fp, 0, sizeof W.fp); W.fp.sticky_kind = -1; W.iface[0].fail = 0; W.host.fail = 0; }
+static void plan_clear(void) { memset(&W.fp, 0, sizeof W.fp); W.fp.sticky_kind = -1; W.fp.one_kind = -1; W.iface[0].fail = 0; W.host.fail = 0; }
 static void plan_set(int slot, int second) {
     plan_clear();
     W.fp.active = 1;
